@@ -10,9 +10,14 @@
     spec's parameter list / key shares / server name AFTER the dial, extension 57 as read off
     the wire, server_name on the wire.
     [NilSpec]: first flight of UTransport{QUICSpec: nil} and of Transport (datagram sizes,
-    transport parameters): the model of u_dial None is plain_dial, so they must agree. *)
+    transport parameters): the model of u_dial None is plain_dial, so they must agree.
+    [Retx]: the real uPacketPacker driven packet by packet (harness/quic/udial.go): the first
+    flight as (packet number, CRYPTO frames), then losses / acknowledgements through the frames'
+    own handlers and packing calls, each with the retransmission queue before and after it, the
+    ranges it took and its result (nothing / packet / error class). *)
 From Coq Require Import List ZArith Bool String.
 From V Require Import Gen.Params Lib.Hex Wire.Varint USpec.Model UDial.Model.
+From V Require Export UDial.Retx.   (* the harness prints rop / rres constructors *)
 Import ListNotations.
 Open Scope Z_scope.
 
@@ -28,7 +33,8 @@ Inductive step :=
 
 Inductive case :=
 | Seq (ps0 : list rp) (keys0 : list (Z * Z)) (sni0 : string) (steps : list step)
-| NilSpec (sizesU : list Z) (tpU : list (Z * string)) (sizesP : list Z) (tpP : list (Z * string)).
+| NilSpec (sizesU : list Z) (tpU : list (Z * string)) (sizesP : list Z) (tpP : list (Z * string))
+| Retx (n : Z) (planned : bool) (flight : list (Z * list (Z * Z))) (ops : list rop).
 
 (* per dial: spec after the dial (parameters, key shares as (group, |Data|), server name),
    extension 57 as a reader sees it, server_name *)
@@ -36,7 +42,8 @@ Definition step_obs := (list param * list (Z * Z) * list Z * option (list (Z * l
 Inductive obs :=
 | OSeq (l : list step_obs)
 | OPanic (l : list step_obs)       (* the model says this dial panics (PopulateFromUQUIC) *)
-| ONil.
+| ONil
+| ORetx (ok : bool).
 
 (* the keys uTLS generates are not observable before they are on the wire: any value longer
    than one byte does for the replay (only lengths are compared) *)
@@ -57,7 +64,38 @@ Fixpoint replay (st : spec_state) (steps : list step) : obs :=
       match replay st2 r with
       | OSeq l => OSeq (so :: l)
       | OPanic l => OPanic (so :: l)
-      | ONil => ONil
+      | other => other
+      end
+    end
+  end.
+
+(* Retx: the model's queue equals the logged one before and after every packing call, the
+   logged pops are legal, and the model's result is the implementation's *)
+Fixpoint ranges_eqb (a b : list range) : bool :=
+  match a, b with
+  | [], [] => true
+  | x :: a', y :: b' => (fst x =? fst y) && (snd x =? snd y) && ranges_eqb a' b'
+  | _, _ => false
+  end.
+Definition rres_eqb (m o : rres) : bool :=
+  match m, o with
+  | RNone, RNone => true
+  | RPkt p f, RPkt p' f' => (p =? p') && ranges_eqb f f'
+  | RErr c, RErr c' => c =? c'
+  | _, _ => false
+  end.
+Fixpoint retx_ok (planned : bool) (st : rstate) (ops : list rop) : bool :=
+  match ops with
+  | [] => true
+  | o :: r =>
+    match rstep planned st o with
+    | None => false
+    | Some (st', res) =>
+      match o with
+      | RPack _ before _ after obs =>
+        ranges_eqb (rQueue st) before && ranges_eqb (rQueue st') after && rres_eqb res obs &&
+        (if is_err res then match r with [] => true | _ => false end else retx_ok planned st' r)
+      | _ => retx_ok planned st' r
       end
     end
   end.
@@ -66,6 +104,7 @@ Definition model_obs (c : case) : obs :=
   match c with
   | Seq ps0 keys0 sni0 steps => replay (Spec (mkps ps0) None (map mkkey keys0) (hx sni0) [] false) steps
   | NilSpec _ _ _ _ => ONil
+  | Retx n planned flight ops => ORetx (retx_ok planned (RS flight [] []) ops)
   end.
 
 Definition param_eqb (a b : param) : bool :=
@@ -115,5 +154,6 @@ Definition check_case (c : case) : bool :=
   match c, model_obs c with
   | Seq _ _ _ steps, OSeq l => steps_ok l steps
   | NilSpec su tu sp tp, ONil => zeqb_list su sp && zs_eqb_str tu tp
+  | Retx _ _ _ _, ORetx ok => ok
   | _, _ => false
   end.
